@@ -4,7 +4,9 @@ import (
 	"bufio"
 	"fmt"
 	"io"
+	"os"
 	"os/exec"
+	"time"
 	"sort"
 	"strings"
 	"text/template"
@@ -16,10 +18,16 @@ var _ = template.New
 
 // Driver wraps the compiled Lean model speaking the line protocol.
 type Driver struct {
-	cmd *exec.Cmd
-	in  io.WriteCloser
-	out *bufio.Reader
+	cmd   *exec.Cmd
+	in    io.WriteCloser
+	out   *bufio.Reader
+	trace *os.File
+	dead  bool
 }
+
+// driverAnswerLimit bounds the time the model may take for one request; a model that does not answer
+// is killed and the request is reported as a driver error (never silently skipped).
+const driverAnswerLimit = 120 * time.Second
 
 func startDriver(path string) (*Driver, error) {
 	cmd := exec.Command(path)
@@ -35,6 +43,9 @@ func startDriver(path string) (*Driver, error) {
 		return nil, err
 	}
 	d := &Driver{cmd: cmd, in: in, out: bufio.NewReaderSize(outp, 1<<20)}
+	if tp := os.Getenv("VH_TRACE"); tp != "" {
+		d.trace, _ = os.Create(tp)
+	}
 	// section headers of the current text package
 	hdr := "hdr"
 	for _, h := range []string{text.HelpNameHeader, text.HelpSynopsisHeader, text.HelpCommandsHeader, text.HelpRequiredOptionsHeader, text.HelpArgumentsHeader, text.HelpOptionsHeader} {
@@ -45,11 +56,22 @@ func startDriver(path string) (*Driver, error) {
 }
 
 func (d *Driver) ask(lines []string, answers int) ([]string, error) {
+	if d.dead {
+		return nil, fmt.Errorf("driver: killed after an unanswered request")
+	}
 	for _, l := range lines {
+		if d.trace != nil {
+			fmt.Fprintln(d.trace, l)
+		}
 		if _, err := io.WriteString(d.in, l+"\n"); err != nil {
 			return nil, err
 		}
 	}
+	timer := time.AfterFunc(driverAnswerLimit, func() {
+		d.dead = true
+		d.cmd.Process.Kill()
+	})
+	defer timer.Stop()
 	out := make([]string, 0, answers)
 	for i := 0; i < answers; i++ {
 		l, err := d.out.ReadString('\n')
